@@ -400,6 +400,13 @@ class Plex:
     def rel(self, mod):
         return PLEX + mod + '.py'
 
+    def model(self):
+        """the Plex modules loaded into the checker's own evaluator (sC50.PlexModel), built once per run"""
+        if getattr(self, '_model', None) is None:
+            from .sC50 import PlexModel
+            self._model = PlexModel(self)
+        return self._model
+
     def cls(self, mod, name):
         for n in self.trees[mod].body:
             if isinstance(n, ast.ClassDef) and n.name == name:
